@@ -321,3 +321,67 @@ package aws
 //@ func (*CloudProvider).GetInstance(c, node) (inst, err)
 //@   requires c != nil && c.ec2Service != nil && node != nil
 //@   ensures err == nil ==> inst != nil
+
+// ---------------------------------------------------------------- aws.go: registration and refresh (C20, C07)
+
+// A_TAGS: Jname = the ASG tagged
+//@ iface github.com/aws/aws-sdk-go/service/autoscaling/autoscalingiface.AutoScalingAPI.CreateOrUpdateTags(api, input) (out, err)
+//@   requires input != nil
+//@   modifies Jlen, Jkind, Jok
+//@   ensures Jlen == old(Jlen) + 1 && Jkind == old(Jkind)[old(Jlen) := A_TAGS] && Jok == old(Jok)[old(Jlen) := err == nil]
+// DescribeAutoScalingGroups is a read. A successful answer lists only groups that were asked for, each
+// well-formed as far as it is dereferenced (tags carry a key), and - C07 - with the desired capacity AWS holds.
+//@ spec asgName(g *autoscaling.Group) string = (g.AutoScalingGroupName == nil ? "" : deref(g.AutoScalingGroupName))
+//@ spec asgDesired(g *autoscaling.Group) int = (g.DesiredCapacity == nil ? 0 : deref(g.DesiredCapacity))
+//@ spec askedFor(input *autoscaling.DescribeAutoScalingGroupsInput, name string) bool = exists j :: 0 <= j && j < len(input.AutoScalingGroupNames) && input.AutoScalingGroupNames[j] != nil && deref(input.AutoScalingGroupNames[j]) == name
+//@ spec tagsOK(g *autoscaling.Group) bool = forall t :: 0 <= t && t < len(g.Tags) ==> g.Tags[t] != nil && g.Tags[t].Key != nil
+//@ iface github.com/aws/aws-sdk-go/service/autoscaling/autoscalingiface.AutoScalingAPI.DescribeAutoScalingGroups(api, input) (out, err)
+//@   pure
+//@   requires input != nil
+//@   ensures err == nil ==> out != nil && fresh(out) && (forall i :: 0 <= i && i < len(out.AutoScalingGroups) ==> out.AutoScalingGroups[i] != nil && fresh(out.AutoScalingGroups[i]) && tagsOK(out.AutoScalingGroups[i]) && askedFor(input, asgName(out.AutoScalingGroups[i])))
+//@   ensures [C07] err == nil ==> (forall i :: 0 <= i && i < len(out.AutoScalingGroups) ==> asgDesired(out.AutoScalingGroups[i]) == RD[asgName(out.AutoScalingGroups[i])])
+
+// provInv(c): every registered node group is a well-formed object registered under its own id
+//@ spec provInv(c *CloudProvider) bool = forall s string :: has(c.nodeGroups, s) ==> c.nodeGroups[s] != nil && c.nodeGroups[s].id == s && c.nodeGroups[s].asg != nil && c.nodeGroups[s].config != nil && c.nodeGroups[s].provider == c
+
+//@ func NewNodeGroup(config, asg, provider) (n)
+//@   requires config != nil
+//@   ensures n != nil && fresh(n) && n.id == config.GroupID && n.asg == asg && n.provider == provider && n.config == config && n.terminateInstancesTries == 0
+
+// tagging: at most one write (A_TAGS), only with resource tagging on
+//@ func addASGTags(config, asg, provider)
+//@   requires config != nil && asg != nil && provider != nil && provider.service != nil && tagsOK(asg)
+//@   modifies Jlen, Jkind, Jok
+//@   ensures old(Jlen) <= Jlen && Jlen <= old(Jlen) + 1 && (forall k :: k < old(Jlen) ==> Jkind[k] == old(Jkind)[k] && Jok[k] == old(Jok)[k])
+//@   ensures Jlen == old(Jlen) + 1 ==> Jkind[old(Jlen)] == A_TAGS && config.AWSConfig.ResourceTagging
+//@ loop #0
+//@   invariant Jlen == old(Jlen)
+
+// C20: registration / refresh never panic, whatever AWS answers (within the SDK well-formedness assumed
+// above), and keep provInv. C07: afterwards every group that was described has its cache in step.
+//@ func (*CloudProvider).RegisterNodeGroups(c, groups) (err)
+//@   requires c != nil && c.service != nil && c.nodeGroups != nil && provInv(c)
+//@   requires [C07] forall s string :: has(c.nodeGroups, s) ==> allocated(c.nodeGroups[s])
+//@   modifies Jlen, Jkind, Jok, mapof(c.nodeGroups), allof("NodeGroup")
+//@   ensures provInv(c) && Jlen >= old(Jlen)
+//@   ensures forall k :: old(Jlen) <= k && k < Jlen ==> Jkind[k] == A_TAGS
+// C07: every group AWS described in this call (its asg record is the fresh one) has its cache in step
+//@   ensures [C07] forall s string :: has(c.nodeGroups, s) && fresh(c.nodeGroups[s].asg) ==> synced(c.nodeGroups[s])
+//@ loop #0
+//@   modifies elems(strs), mapof(configs)
+//@   invariant forall s string :: has(configs, s) ==> configs[s] != nil && birth(configs[s]) < now && configs[s].GroupID == s
+//@   invariant forall j :: 0 <= j && j < #i ==> strs[j] != nil && has(configs, deref(strs[j]))
+//@   invariant forall s string :: has(configs, s) ==> (exists j :: 0 <= j && j < #i && strs[j] != nil && deref(strs[j]) == s)
+//@ loop #1
+//@   modifies mapof(c.nodeGroups), allof("NodeGroup")
+//@   invariant provInv(c) && Jlen >= old(Jlen) && (forall k :: old(Jlen) <= k && k < Jlen ==> Jkind[k] == A_TAGS)
+//@   invariant [C07] forall s string :: has(c.nodeGroups, s) && fresh(c.nodeGroups[s].asg) ==> synced(c.nodeGroups[s])
+//@ loop #2
+
+//@ func (*CloudProvider).Refresh(c) (err)
+//@   requires c != nil && c.service != nil && c.nodeGroups != nil && provInv(c)
+//@   modifies Jlen, Jkind, Jok, mapof(c.nodeGroups), allof("NodeGroup")
+//@   ensures provInv(c) && Jlen >= old(Jlen)
+//@ loop #0
+//@   modifies elems(configs)
+//@   invariant (base(configs) == entry(base(configs)) && off(configs) == entry(off(configs)) && cap(configs) == entry(cap(configs))) || birth(base(configs)) >= entry(now)
